@@ -193,9 +193,11 @@ class Prog:
             from . import normalise
 
             trees = {name: m.tree for name, m in self.mods.items()}
+            n_ann = sum(normalise.plain_assignments(t) for t in trees.values())
             self.norm_stats = normalise.absorb_helpers(trees)
+            self.norm_stats["annotated_assignments"] = n_ann
+            self.norm_stats["constants_inlined"] = normalise.inline_constants(trees)
             self.norm_stats["accumulator_loops_folded"] = sum(normalise.fold_accumulator_loops(t) for t in trees.values())
-            self.norm_stats["annotated_assignments"] = sum(normalise.plain_assignments(t) for t in trees.values())
         self._index()
         self._resolve_bases()
 
